@@ -75,6 +75,14 @@ def main():
     if args.replay:
         payload = json.load(open(args.replay))
         ok = mod.replay(payload)
+        if ok is None:
+            # deterministic re-run: every random choice derives from the seed recorded in the replay file
+            env = dict(os.environ, VERIF_SEED=str(payload.get('seed', 0)), VERIF_TIER=payload.get('tier', 'quick'))
+            import subprocess
+            p = subprocess.run([sys.executable, os.path.abspath(__file__), pid, '--tier', payload.get('tier', 'quick')], env=env,
+                               capture_output=True, text=True)
+            print(p.stdout[-2000:])
+            ok = p.returncode == 0
         print('replay:', 'property holds on this input' if ok else 'VIOLATION reproduced')
         return 0 if ok else 1
 
